@@ -22,11 +22,69 @@ def real_kill_batch(acc, batch, **kw):
     poolcheck.real_kill_batch(acc, batch, **kw)
 
 
+def cli_local_batch(acc, batch):
+    """The pool as `gwf run` uses it (real Client over the bridge): four independent targets that each ask for more cores than the 2-core
+    pool has are run, every order in which the live processes may exit, then the source changes and they are run again. At no time are
+    more task processes alive than the pool has cores, and every target gets to run."""
+    from mc import cliworld as CW
+    from mc import e2
+
+    for rounds in batch:
+        w = CW.init_world("wide4c", "local")
+        trace = []
+        problems = []
+        for rnd in range(rounds):
+            w, r = CW.apply_action(w, ("gwf", ["run"]))
+            trace.append(["gwf", ["run"]])
+            acc.extra["invocations"] += 1
+            if r.exit_code != 0 or r.crashed():
+                problems.append(f"run failed: {r.exc or r.err_summary()}")
+                break
+            # every exit order (BFS with dedup), keep one terminal per distinct state
+            seen, frontier, terminals = set(), [(w, list(trace))], []
+            while frontier:
+                nxt = []
+                for wx, tr in frontier:
+                    acts = [a for a in CW.enabled_env(wx, kinds=("finish_ok",)) if a[1] == "exit"]
+                    if not acts:
+                        terminals.append((wx, tr))
+                        continue
+                    for a in acts:
+                        w2, _ = CW.apply_action(wx, a)
+                        ml = w2.pool["summary"].get("max_live", 0)
+                        if ml > w2.pool["cores"]:
+                            problems.append(f"{ml} task processes alive at once on a pool of {w2.pool['cores']} cores after {tr + [list(a)]}")
+                        k = e2.world_key(w2.copy().normalize())
+                        if k not in seen:
+                            seen.add(k)
+                            nxt.append((w2, tr + [list(a)]))
+                frontier = nxt
+                acc.tick()
+            acc.extra["transitions"] += len(seen)
+            w, trace = terminals[0]
+            stuck = [t["name"] for t in w.pool["summary"]["tasks"] if t["state"] in ("SUBMITTED", "RUNNING")]
+            if stuck:
+                problems.append(f"tasks never ran although every process exited: {stuck}")
+            w, _ = CW.apply_action(w, ("modify", "src"))
+            trace.append(["modify", "src"])
+        case = dict(kind="cli-local", rounds=rounds)
+        acc.case(key=f"cli-local-{rounds}", outcome=f"cli-local rounds={rounds} ok={not problems}", sample=case)
+        if problems:
+            acc.violation(sig=dict(kind="cli-local", what=problems[0].split(" ")[1] + " " + problems[0].split(" ")[2]), case=case, observed=problems[:5], msg=f"local pool through `gwf run`, {rounds} round(s): {problems[:2]}")
+
+
 def run(ctx):
     import mc.checks.c12 as me
 
     poolcheck.run_pool(ctx, me, ID)
+    ctx.pmap(me, "cli_local_batch", [1, 2, 3], chunk=1)
 
 
 def replay(case):
+    if case.get("kind") == "cli-local":
+        from mc.runner import Acc
+
+        acc = Acc()
+        cli_local_batch(acc, [case["rounds"]])
+        return acc.violations
     return poolcheck.replay_pool(case, ID)
